@@ -168,7 +168,7 @@ class SpyBreaker(CircuitBreaker):
     def allow(self):
         d = super().allow()
         w = env.current()
-        self._rv_sink().append(("br.allow", d.allowed, d.state.value, d.event, w.now() if w else None))
+        self._rv_sink().append(("br.allow", d.allowed, d.state.value, d.event, w.now() if w else None, CircuitBreaker.state.fget(self).value))
         return d
 
     def record_success(self):
@@ -244,7 +244,7 @@ class Harness:
         self.fault = sc.get("fault")
         self.cur: Rec | None = None
         self.use_abort = bool(sc.get("poll")) or any(
-            c.get("abort_at") is not None or c.get("abort_after_op") is not None for c in sc["calls"]
+            c.get("abort_at") is not None or c.get("abort_after_op") is not None or c.get("abort_after_strategy") is not None for c in sc["calls"]
         )
         self.n = {}
         self.budget = None
@@ -357,6 +357,26 @@ class Harness:
                 ok,
             )
 
+        if name in self.cfg.get("strategy_objects", ()):
+            # a strategy OBJECT with the optional feedback protocol (record_failure / record_success), like adaptive()
+
+            class StrategyObject:
+                def __call__(self, ctx):
+                    return ctxs(ctx)
+
+                def record_failure(self, klass=None):
+                    rec = h.cur
+                    i = h.count("srec_failure")
+                    rd = rec.env.get("rf_dur")
+                    if rd:
+                        h.world.t += rd[i % len(rd)]  # feedback bookkeeping that takes time
+                    rec.trace.append(("srec", "failure", name, getattr(klass, "name", None), h.now()))
+
+                def record_success(self):
+                    h.cur.trace.append(("srec", "success", name, None, h.now()))
+
+            return StrategyObject()
+
         return ctxs
 
     def op_body(self):
@@ -374,6 +394,14 @@ class Harness:
             return v
         if kind == "exc":
             x = ScriptExc(o[1], i, o[2] if len(o) > 2 else None)
+            rec.objs[i] = x
+            raise x
+        if kind == "exc_same":
+            # a client that caches its error object: the SAME instance is raised again on consecutive attempts
+            x = rec.objs.get("cached_exc")
+            if x is None or x.rv_klass != o[1]:
+                x = ScriptExc(o[1], i, o[2] if len(o) > 2 else None)
+                rec.objs["cached_exc"] = x
             rec.objs[i] = x
             raise x
         if kind == "res":
@@ -427,6 +455,9 @@ class Harness:
         aop = rec.env.get("abort_after_op")
         if aop is not None and self.n.get("op", 0) >= aop:
             ans = True  # sticky flag raised while attempt #aop was in flight
+        ast = rec.env.get("abort_after_strategy")
+        if ast is not None and self.n.get("strat", 0) >= ast:
+            ans = True  # sticky flag raised while the strategy was computing the ast-th delay
         rec.trace.append(("poll", i, ans, self.now()))
         self.cb_fault("abort_if")
         return ans
@@ -608,15 +639,39 @@ class Harness:
         self.retry_kw = kw
         A = self.is_async
         k = self.kind
+        via_config = bool(self.sc.get("via_config")) and not self.hook_kw_policy and k in ("retry", "policy", "rp")
+
+        def mk_retry(cls):
+            if not via_config:
+                return cls(**kw, **self.hook_kw_policy)
+            # the documented alternative construction path: a RetryConfig bundle + from_config()
+            from redress.config import RetryConfig
+
+            conf = RetryConfig(
+                deadline_s=kw["deadline_s"],
+                attempt_timeout_s=kw.get("attempt_timeout_s"),
+                max_attempts=kw["max_attempts"],
+                max_unknown_attempts=kw["max_unknown_attempts"],
+                per_class_max_attempts=kw["per_class_max_attempts"],
+                default_strategy=kw["strategy"],
+                class_strategies=kw["strategies"] or None if kw["strategy"] is not None else kw["strategies"],
+                result_classifier=kw["result_classifier"],
+                sleep=kw.get("sleep"),
+                before_sleep=kw.get("before_sleep"),
+                sleeper=kw.get("sleeper"),
+                budget=kw["budget"],
+            )
+            return cls.from_config(conf, classifier=kw["classifier"])
+
         if k == "retry":
-            self.obj = (AsyncRetry if A else Retry)(**kw, **self.hook_kw_policy)
+            self.obj = mk_retry(AsyncRetry if A else Retry)
         elif k == "policy":
             r = None
             if self.has_retry:
-                r = (AsyncRetry if A else Retry)(**kw, **self.hook_kw_policy)
+                r = mk_retry(AsyncRetry if A else Retry)
             self.obj = (AsyncPolicy if A else Policy)(retry=r, circuit_breaker=self.breaker)
         elif k == "rp":
-            self.obj = (AsyncRetryPolicy if A else RetryPolicy)(**kw)
+            self.obj = mk_retry(AsyncRetryPolicy if A else RetryPolicy)
         elif k == "deco":
             self.obj = None
         else:
@@ -795,7 +850,8 @@ def drive_loop(coro):
 def run(sc, entry, *, wall_seed=0, wall_mode="jump", manual=True):
     """Run all calls of a scenario through one entry point.  Returns (recs, harness, world)."""
     world = env.World(wall_seed=wall_seed, wall_mode=wall_mode)
-    world.manual = manual
+    # attempt_timeout_s needs asyncio.wait_for, i.e. a running event loop: such scenarios use the real loop
+    world.manual = manual and not sc["cfg"].get("attempt_timeout")
     with env.active(world):
         h = Harness(sc, entry, world)
         recs = []
